@@ -409,6 +409,113 @@ def body(ctx):
         c20.token_range(ctx, ctx.load(True))
     except (Unsupported, Inconclusive) as e:
         ctx.inconclusive.append(f"token range: {type(e).__name__}: {e}")
+    try:
+        request_path(ctx, ctx.load(True))
+    except (Unsupported, Inconclusive) as e:
+        ctx.inconclusive.append(f"request path: {type(e).__name__}: {e}")
+
+
+def request_path(ctx, prog):
+    """from Connection::open_channel's argument to the table: what the connection handle sends the I/O thread and what the I/O thread
+    makes of it, composed - an explicit id is answered with exactly that id or an error (id 0 always with an error), `None` with some
+    id other than 0; and a channel opened while the others are throttled can be resumed with them later"""
+    import iocommon as io
+    from mirsym.world import mio_summaries, PollModel, Chan, SenderVal, ReceiverVal, mk_struct, ByteVec, build_steady
+    ex = io.io_executor(ctx, prog, extra=mio_summaries())
+    fh = prog.method('IoLoopHandle0', 'allocate_channel')
+    want_some, want_id = sym('want.some', z3.BoolSort()), sym('want.id', BV16)
+    want = Enum(z3.If(want_some, z3.BitVecVal(1, 64), z3.BitVecVal(0, 64)), {1: Agg({0: Int(want_id, 16, False)})}, 'Option')
+    st = State()
+    req, rep = Chan('alloc.req', 1, True), Chan('alloc.rep', 1, True)
+    rep.senders = 1
+    rep.queue.append(Lazy('std::result::Result<IoLoopHandle, errors::Error>', 'alloc.reply'))
+    common = mk_struct(prog, 'IoLoopHandle', channel_id=Int(0, 16), buf=Agg({0: ByteVec('h0.buf')}, 'OutputBuffer'), tx=Unit(), rx=Unit())
+    h0 = mk_struct(prog, 'IoLoopHandle0', common=common, set_blocked_tx=Unit(), alloc_chan_req_tx=SenderVal(req), alloc_chan_rep_rx=ReceiverVal(rep))
+    st.roots['req'] = req
+    bad = []
+    n = 0
+    for (s, rv) in ex.run(st, fh, [Ref(Cell(h0, 'h0')), want]):
+        q = s.roots['req'].queue
+        if isinstance(rv, Panic) or len(q) != 1:
+            m = ctx.decide(f"c10.request-sent#{n}", s.pc, z3.BoolVal(False), group='open_channel hands the I/O thread one allocation request')
+            if m is not None:
+                bad.append(('no-request', str(rv)[:80]))
+            continue
+        # the I/O thread's side, for this very message
+        f = prog.method('Inner', 'allocate_channel')
+        a = z3.BitVec('chan_a', 16)
+        st2, w = build_steady(prog, [('A', a, {'consumers': 0})])
+        st2.pc += list(s.pc) + [sym('alloc_rep_rx_alive', z3.BoolSort()), sym('conn_handle_alive', z3.BoolSort())]
+        # representation invariant of the table (established by the inductive step above): freed ids are closed ids within 1..=channel_max
+        x_ = z3.BitVec('any.id', 16)
+        st2.pc.append(z3.ForAll([x_], z3.Implies(z3.Select(w.freed.present, x_), z3.And(x_ != 0, z3.ULE(x_, sym('channel_max', BV16)), x_ != a))))
+        poll = PollModel()
+        st2.roots['poll'] = poll
+        w.alloc_req.queue.append(q[0])
+        ch0 = w.state.value.payloads[w.state.value.disc].fields[0]
+        cmax = sym('channel_max', BV16)
+        for (s2, rv2) in ex.run(st2, f, [Ref(w.inner), Ref(Cell(ch0, 'ch0')), Ref(Cell(poll, 'poll'))]):
+            n += 1
+            w1 = s2.roots['w']
+            repq = w1.alloc_rep.queue
+            ok = not isinstance(rv2, Panic) and io.err_name(prog, rv2) == 'Ok' and len(repq) == 1 and isinstance(repq[0], Enum)
+            c = [z3.BoolVal(bool(ok))]
+            if ok:
+                r = repq[0]
+                if r.disc == 0:
+                    hid = io.field(prog, r.payloads[0].fields[0], 'IoLoopHandle', 'channel_id').bv
+                    c += [hid != 0, z3.ULE(hid, cmax), hid != a, z3.Implies(want_some, hid == want_id)]
+                    # resumable: the new channel's queue is known to the poller (registered, or registered and parked)
+                    p = s2.roots['poll']
+                    c.append(z3.BoolVal(any(l[0] == 'register' for l in p.log)))
+                else:
+                    en = io.variant_name(prog, io.err_value(r), 'errors::Error')
+                    c.append(z3.BoolVal(en in ('UnavailableChannelId', 'ExhaustedChannelIds')))
+                    c.append(z3.BoolVal(en == 'UnavailableChannelId') == want_some)
+            m = ctx.decide(f"c10.request-path#{n}", s2.pc, z3.And(*c), group='open_channel(Some(id)) is answered with exactly id or UnavailableChannelId (always for id 0), open_channel(None) with an unused id in 1..=channel_max or ExhaustedChannelIds; the new channel is registered with the poller')
+            if m is not None:
+                bad.append((('Some', m.eval(want_id, model_completion=True).as_long()) if z3.is_true(m.eval(want_some, model_completion=True)) else ('None',), str(repq)[:120]))
+    if bad:
+        ctx.report('allocation-request-path', f"open_channel request {bad[0][0]}: answered {bad[0][1]}", {'cases': [str(b_)[:200] for b_ in bad[:6]]}, REQUEST_TEST,
+                   inject_into='src/io_loop/mod.rs', profiles=('dev',), hang_is_violation=True, panic_is_violation=True)
+
+
+REQUEST_TEST = r"""
+use super::*;
+#[test]
+fn verif_replay_c10_request_path() {
+    let mut bad: Vec<String> = Vec::new();
+    // (request, throttled?) -> what the caller must get
+    for (want, throttled) in [(Some(0u16), false), (Some(7), false), (None, false), (Some(11), false), (Some(5), true), (None, true)].iter().cloned() {
+        let (dtx, drx) = std::sync::mpsc::channel();
+        std::thread::spawn(move || {
+            let mut io = IoLoop::new(crate::ConnectionTuning::default()).unwrap();
+            io.inner.chan_slots.set_channel_max(10);
+            let (ch0_slot, mut h0) = Channel0Slot::new(4);
+            if throttled { io.inner.deregister_nonzero_channels(&io.poll).unwrap(); }
+            let caller = std::thread::spawn(move || { let r = h0.allocate_channel(want).map(|h| h.channel_id()); std::mem::forget(h0); r });
+            std::thread::sleep(std::time::Duration::from_millis(150));
+            let served = io.inner.allocate_channel(&ch0_slot, &io.poll).is_ok();
+            let got = caller.join().unwrap();
+            // the channels are resumed later: the I/O thread must survive that
+            let resumed = if throttled { io.inner.reregister_nonzero_channels(&io.poll).map_err(|e| format!("{}", e)) } else { Ok(()) };
+            let _ = dtx.send((served, got.map_err(|e| format!("{:?}", e)), resumed));
+        });
+        match drx.recv_timeout(std::time::Duration::from_secs(5)) {
+            Ok((served, got, resumed)) => {
+                let ok = served && resumed.is_ok() && match (want, &got) {
+                    (Some(0), Err(e)) | (Some(11), Err(e)) => e.starts_with("UnavailableChannelId"),
+                    (Some(k), Ok(id)) => *id == k && k != 0 && k <= 10,
+                    (None, Ok(id)) => *id >= 1 && *id <= 10,
+                    _ => false };
+                if !ok { bad.push(format!("want={:?}:throttled={}:served={}:got={:?}:resumed={:?}", want, throttled, served, got, resumed).replace(' ', "")); }
+            }
+            Err(_) => bad.push(format!("want={:?}:throttled={}:HANG", want, throttled).replace(' ', "")),
+        }
+    }
+    if bad.is_empty() { println!("VERIF-REPLAY-OK"); } else { println!("VERIF-REPLAY-VIOLATION allocation-request-path {}", bad.join(";")); }
+}
+"""
 
 
 def get_fns(prog):
